@@ -112,6 +112,7 @@ def sequence_order(ctx, fx, files, rule="R-SEQ"):
             n += 1
             ctx.analysed_fns.add(fid)
             bad = None
+            reordered = False
             bodies = [fid] + [x for x in allids if x.startswith(fid + "::{")]
             for bid in bodies:
                 for kk in range(fx.count(bid)):
@@ -119,6 +120,14 @@ def sequence_order(ctx, fx, files, rule="R-SEQ"):
                     for b, c in bf.calls():
                         if UNORDERED.search(c["f"]) or UNORDERED.search(c.get("st") or ""):
                             bad = (c["f"], c["ln"], bf.file)
+                        if _re.search(r"::sort(_unstable)?(_by(_key|_cached_key)?)?$", c["f"]):
+                            reordered = True      # completion order repaired by an index sort
+                    for loc, st in bf.iter_locs():
+                        # results written into their slot by index: `out[i] = r`
+                        if st[0] == "a" and len(st[1]) > 1 and any(isinstance(e, str) and e.startswith("[_") for e in st[1][1:]):
+                            reordered = True
+            if reordered:
+                bad = None
             ctx.obligation(rule, fid, "no completion-ordered combinator", bad is None,
                            sample={"fn": fid, "returns": rt[:80], "bodies_searched": len(bodies)})
             if bad:
